@@ -479,3 +479,54 @@ class SweepDeadEntries(Contract):
 
 
 CONTRACTS = CONTRACTS + [SweepDeadEntries]
+
+
+class TypeInStoredRecords(Contract):
+    """Workspace._type_in_stored_records: a type is in use as soon as the attribute records of *any*
+    live drillhole group name it (data that are not loaded exist only as those records); other
+    groups, dead references and groups without records do not count."""
+    target = "geoh5py/workspace/workspace.py::Workspace._type_in_stored_records"
+    props = ("C05", "C09", "C04")
+    lenient = True
+
+    def cases(self):
+        # per registered group: a drillhole group naming the type / a drillhole group naming other types / one without records /
+        # an ordinary group / a dead reference
+        kinds = ("names-it", "names-others", "no-records", "ordinary", "dead")
+        return [c for n in (0, 1, 2, 3) for c in itertools.product(kinds, repeat=n)][::3] + [("names-others", "names-it"), ("no-records", "names-others", "names-it"), ("ordinary", "dead", "names-it")]
+
+    def setup(self, ctx):
+        import uuid
+
+        from geoh5py.groups import ContainerGroup, DrillholeGroup
+        from geoh5py.shared.concatenation import Concatenator
+        from geoh5py.workspace import Workspace
+
+        me = Opaque("self", cls=Workspace)
+        wanted = uuid.UUID(int=77)
+        conc_cls = type("ConcatenatorDrillholeGroup", (Concatenator, DrillholeGroup), {})
+        reg = {}
+        for i, kind in enumerate(ctx.case):
+            if kind == "ordinary":
+                g = Opaque(f"group-{i}", cls=ContainerGroup)
+            else:
+                g = Opaque(f"group-{i}", cls=conc_cls)
+                recs = [PDict({"Name": "h", "Object Type ID": "{" + str(uuid.UUID(int=5)) + "}"}), PDict({"Name": "a", "Type ID": "{" + str(uuid.UUID(int=9)) + "}"})]
+                if kind == "names-it":
+                    recs.append(PDict({"Name": "Au", "Type ID": "{" + str(wanted) + "}"}))
+                g.attrs["concatenated_attributes"] = None if kind == "no-records" else PDict({"Attributes": PList(recs)})
+            ctx.path.assume(~g.none_var())
+            ref = Opaque(f"ref-{i}")
+            ref.maybe_method = (lambda I, a, kw, _g=g, _dead=(kind == "dead"): None if _dead else _g)
+            reg[uuid.UUID(int=100 + i)] = ref
+        me.attrs["_groups"] = PDict(reg)
+        ctx.env.update(wanted=wanted)
+        return [me, wanted], {}
+
+    def post(self, ctx, result):
+        want = "names-it" in ctx.case
+        ctx.oblige("in-use-exactly-when-the-records-of-some-live-drillhole-group-name-the-type", isinstance(result, bool) and result is want,
+                   note=f"groups {list(ctx.case)}: answered {result!r}")
+
+
+CONTRACTS = CONTRACTS + [TypeInStoredRecords]
